@@ -75,8 +75,15 @@ func (s *c02State) planAndRender(leg c02Leg, nonce string, defects []c02Defect, 
 		}
 	}
 	var rd c02Rendered
+	var werr error
 	if useWallet {
-		rd = s.walletRender(r, leg.Owner, s.fx.issuer, nonce)
+		if rd, werr = s.walletRender(r, leg.Owner, s.fx.issuer, nonce); werr != nil {
+			// the node's own policy backend / wallet does not serve this request: send the assembled form instead
+			s.x.Class("render:node-wallet-refused")
+			useWallet = false
+		}
+	}
+	if useWallet {
 		s.x.Class("render:node-wallet")
 	} else {
 		rd = s.fx.render(s.x, r)
@@ -132,10 +139,14 @@ func (s *c02State) judge(tag string, res c02TokenResult, all []string) {
 	}
 	if len(defects) == 0 {
 		if res.Err != nil {
-			// generator soundness: a request without defects must be accepted. The property only states "issued only
-			// when", so this is reported as a harness problem (inconclusive), never as a violation.
-			x.Fatalf("%s: defect-free request rejected: %s\ncase: %+v", tag, c02ErrString(res.Err), s.c)
+			// The property only states "issued only when ...": refusing a request without defects is the node's freedom
+			// (e.g. a definition whose field id is a reserved claim name). Counted; the unit-level vacuity guard makes
+			// sure the generator's requests are still acceptable in general.
+			s.honest(tag + ":" + c02ErrClass(res.Err))
+			x.Logf("%s: defect-free request refused: %s", tag, c02ErrString(res.Err))
+			return
 		}
+		s.honest("")
 		x.Class("outcome:" + tag + ":issued")
 		return
 	}
@@ -203,7 +214,9 @@ func (s *c02State) mainS2S() func() c02TokenResult {
 				s.record(pres, c02ClientIDs[c.ClientID], s.scope().Name, []*c02Request{pr}, []c02Rendered{prd}).Tainted = len(pdef) > 0
 				defects = append(defects, "nonce_reused")
 			} else {
+				// the refused request may or may not have spent the nonce: the main request carries no expectation from it
 				s.x.Class("defect-unrealised:nonce_reused")
+				defects = append(defects, "~nonce_of_refused_prior_request")
 			}
 		}
 	}
@@ -364,7 +377,10 @@ func (s *c02State) mainCode() func() c02TokenResult {
 		defects = append(defects, authScopeDefect)
 		x.Class("outcome:authorize:accepted-unconfigured-scope")
 	} else if err != nil {
-		x.Fatalf("authorize for a configured scope failed: %s", c02ErrString(err))
+		// (freedom of the node, see judge) nothing can be presented or redeemed in this case
+		s.honestStage("authorize", err, len(c.Defects) == 0)
+		x.Classf("ndefects:%d", 0)
+		return s.madeUpCode(clientID)
 	}
 	var reqs []*c02Request
 	var rds []c02Rendered
@@ -390,7 +406,11 @@ func (s *c02State) mainCode() func() c02TokenResult {
 					switch d.Arg % 6 {
 					case 0:
 						other, err := s.authorize(s.scope().Name, clientID, "other")
-						x.NoErr(err, "second authorize")
+						if err != nil {
+							x.Class("defect-unrealised:nonce_foreign")
+							vpNonce = "never-issued-nonce"
+							break
+						}
 						vpNonce = s.nonceFor(other.State, nil)
 					case 1:
 						vpNonce = "never-issued-nonce"
@@ -409,7 +429,11 @@ func (s *c02State) mainCode() func() c02TokenResult {
 					switch d.Arg % 7 {
 					case 0:
 						other, err := s.authorize(s.scope().Name, clientID, "other")
-						x.NoErr(err, "second authorize")
+						if err != nil {
+							x.Class("defect-unrealised:state_wrong")
+							state = "no-such-state"
+							break
+						}
 						state = other.State
 					case 1:
 						state = "no-such-state"
@@ -443,7 +467,11 @@ func (s *c02State) mainCode() func() c02TokenResult {
 				break
 			}
 			if !legDefective {
-				x.Fatalf("defect-free OpenID4VP leg %d (%s) rejected: %s\n%s\ncase: %+v", i, leg.Owner, c02ErrString(err), s.diagnose(rd, leg), c)
+				// (freedom of the node, see judge) the flow ends here without a code
+				s.honestStage(fmt.Sprintf("leg-%s", leg.Owner), err, len(defects) == 0 && skip == nil && len(tokenDefects) == 0 && len(presDefects) == 0)
+				x.Logf("defect-free OpenID4VP leg %d refused: %s\n%s", i, c02ErrString(err), s.diagnose(rd, leg))
+				x.Classf("ndefects:%d", len(defects))
+				return s.madeUpCode(clientID)
 			}
 			x.Class("outcome:leg:rejected")
 			break
@@ -511,7 +539,9 @@ func (s *c02State) mainCode() func() c02TokenResult {
 			}
 		}
 		if len(defects) == 0 {
-			x.Fatalf("all legs accepted but no authorization code issued")
+			s.honestStage("no-code-after-all-legs", nil, len(tokenDefects) == 0)
+			x.Classf("ndefects:%d", 0)
+			return s.madeUpCode(clientID)
 		}
 		x.NonTrivial()
 		x.Classf("ndefects:%d", len(defects))
@@ -560,6 +590,28 @@ func (s *c02State) mainCode() func() c02TokenResult {
 		strict, _ := c02Strict(defects)
 		s.record(res, clientID, authScope, reqs, rds).Tainted = len(strict) > 0
 	}
+	return send
+}
+
+// honestStage: a defect-free step of the authorization-code flow (authorize, an OpenID4VP leg) was refused. If the whole
+// flow was free of defects this ends one honest flow (vacuity guard); in any case it is a class.
+func (s *c02State) honestStage(stage string, err error, wholeFlowHonest bool) {
+	cl := stage
+	if err != nil {
+		cl += ":" + c02ErrClass(err)
+	}
+	if wholeFlowHonest {
+		s.honest(cl)
+	} else {
+		s.x.Class("honest-refused:" + cl)
+	}
+}
+
+// madeUpCode: what is left to try when no authorization code was handed out; it must of course be refused
+func (s *c02State) madeUpCode(clientID string) func() c02TokenResult {
+	body := HandleTokenRequestFormdataRequestBody{GrantType: oauth.AuthorizationCodeGrantType, Code: c02Ptr("made-up-code"), ClientId: c02Ptr(clientID), CodeVerifier: c02Ptr("made-up-verifier")}
+	send := func() c02TokenResult { return s.callToken(body, s.c.DPoP) }
+	s.judge("main", send(), []string{"no_code"})
 	return send
 }
 
@@ -692,8 +744,31 @@ func c02Run(x *h.Ctx, c c02Case) {
 	if len(c.Policy) == 0 || c.Scope < 0 || c.Scope >= len(c.Policy) {
 		x.Fatalf("bad case")
 	}
-	fx := c02NewFixture(x, c02RenderPolicy(c.Policy))
-	s := &c02State{x: x, c: c, fx: fx}
+	plain := true
+	for _, sc := range c.Policy {
+		for _, pd := range []*c02PD{sc.Org, sc.User} {
+			if pd == nil {
+				continue
+			}
+			for _, d := range pd.Descs {
+				for _, f := range d.Fields {
+					plain = plain && c02In(c02PlainIDs, f.ID)
+				}
+			}
+		}
+	}
+	fx, err := c02NewFixture(x, c02RenderPolicy(c.Policy))
+	if err != nil {
+		// the node refuses the policy: nothing can be requested (freedom of the node; guarded against vacuity per unit)
+		s := &c02State{x: x, c: c, plainIDs: plain}
+		s.honest("policy-load")
+		x.Logf("policy directory refused by the policy backend: %v", err)
+		return
+	}
+	s := &c02State{x: x, c: c, fx: fx, plainIDs: plain}
+	if plain {
+		x.Class("policy:plain-claim-ids-only")
+	}
 	x.Class("flow:" + c.Flow)
 	x.Class("vp:" + c.VPFmt)
 	x.Class("vc:" + c.VCFmt)
@@ -790,6 +865,10 @@ func (s *c02State) diagnose(rd c02Rendered, leg c02Leg) string {
 	if err != nil {
 		return "submission: " + err.Error()
 	}
-	_, err = sub.Validate(*env, s.realPD(s.scope().Name, leg.Owner))
+	pd, err := s.realPD(s.scope().Name, leg.Owner)
+	if err != nil {
+		return "policy backend: " + err.Error()
+	}
+	_, err = sub.Validate(*env, pd)
 	return fmt.Sprintf("PEX says: %v\nsubmission: %s\nassertion: %.600s", err, rd.Submission, rd.Assertion)
 }
